@@ -22,6 +22,7 @@ PROF_URLS = [
     "https://ofx.alpha-bank.test:8443/ofx/profile",
     "https://ofx.alpha-bank.test/ofx/profile?fi=202",
     "https://ofx.gamma-invest.test/ofx/profile",
+    "https://OFX.Delta-Trust.TEST:443/OFX/Profile/",       # upper-case host, explicit default port, trailing slash
 ]
 V1 = [102, 103, 151, 160]
 V2 = [200, 201, 202, 203, 210, 211, 220]
@@ -83,10 +84,10 @@ class World:
         elif same_host_svc == 1:
             svc = f"https://{hp}/ofx/service{k}"
         elif same_host_svc == 2:
-            svc = f"https://svc{k}.{host.split('.', 1)[1]}:8443/svc"
+            svc = f"https://svc{k}.{host.split('.', 1)[1].lower()}:8443/svc"
         else:
-            svc = f"http://svc{k}.{host.split('.', 1)[1]}/plain/svc"
-        fi = peers.SimFI(self.sim, self.net, "ABCDE"[k], prof, svc, cookies=cookies, form=form,
+            svc = f"http://svc{k}.{host.split('.', 1)[1].lower()}/plain/svc"
+        fi = peers.SimFI(self.sim, self.net, "ABCDEF"[k], prof, svc, cookies=cookies, form=form,
                          pretty=pretty)
         fi.index = k
         if msgsets is not None:
@@ -155,7 +156,7 @@ class World:
             date = refofx.parse_dt(rs.get("DTPROFUP", ""))
         except refofx.RefError as e:
             return ("bad", str(e))
-        want = refofx.doc_to_node(peers.profrs_doc(p, fi.prof_url, fi.trailing, fi.msgsets)).dump()
+        want = refofx.doc_to_node(peers.profrs_doc(p, fi.prof_url, fi.trailing, fi.msgsets, fi.closing)).dump()
         if rs.dump() != want:
             return ("bad", f"profile {marker} differs from what {fi.name} generated")
         if date != p.date:
